@@ -13,9 +13,10 @@ import os
 import re
 import sys
 
-from common import (qlit, qlist, zlit, zlist, dyadic, coqc_many, parse_evals, REPO)
+from common import (qlit, qlist, zlit, zlist, dyadic, coqc, coqc_many, parse_evals, REPO)
 import c18_search as S
 import c18_audit as A
+import c18_translate as T
 
 THEOREMS = ["C18_segments_tile", "C18_segments_cover_exactly_once",
             "C18_profile_constructor_reports_arguments", "C18_profile_history_independent",
@@ -25,7 +26,11 @@ THEOREMS = ["C18_segments_tile", "C18_segments_cover_exactly_once",
             "C18_spectrum_history_independent", "C18_spectrum_accessors_report_parameters",
             "C18_wavelength_centres", "C18_gaussian_bin_power_is_cdf_difference",
             "C18_gaussian_power_telescopes", "C18_constant_bin_power", "C18_constant_power_sums_to_one",
-            "C18_beam_rejected_setter_leaves_stale_parameter"]
+            "C18_beam_rejected_setter_leaves_stale_parameter",
+            "C18_node_segments_tile_after_any_history", "C18_energy_density_after_any_history",
+            "C18_integrals_after_any_history_partial", "C18_polarisation_is_normalised",
+            "C18_constant_bin_power_is_integral_of_density", "C18_spectrum_after_any_history",
+            "C18_double_evaluator_at_identity_is_the_model"]
 
 KINDS = ["KUniform", "KBiv", "KTri", "KBeam"]
 FIELDS = ["Fed", "Fpe", "Fpl", "Fsx", "Fsy", "Fsz", "Fmz", "Fwz", "Fsw", "Fwl", "Frad", "Flen"]
@@ -123,7 +128,9 @@ def gen_profile_case(rng, kind, exact, forced_op=None):
         n = rng.choice([0, 1, 1, 2, 3, 4, 5, 6, 8])
         for _ in range(n):
             t = rng.random()
-            if t < 0.12:
+            if t < 0.02:
+                ops.append(("bad", rng.choice(FIELDS + [None]), rng.randrange(4)))      # a value of a rejected type
+            elif t < 0.12:
                 ops.append(("pol", gen_vec(rng)))
             elif t < 0.15:
                 ops.append(("set", rng.choice([f for f in FIELDS if f not in flds]), 1.5))      # no such attribute
@@ -184,7 +191,9 @@ def gen_spectrum_case(rng, kind, exact, quick, forced_op=None):
         n = rng.choice([0, 1, 1, 2, 3, 4, 5, 6])
         for _ in range(n):
             t = rng.random()
-            if t < 0.2:
+            if t < 0.02:
+                ops.append(("bad", rng.choice(["min", "max", "bins", "mean", "std"]), rng.randrange(4)))
+            elif t < 0.2:
                 v = cur_lo + (cur_hi - cur_lo) * (dyadic(rng, -1, 3 / 4, 3) if exact else rng.uniform(-1, 0.8))
                 ops.append(("min", v))
                 if 0 < v < cur_hi:
@@ -216,6 +225,8 @@ def err_code(e):
         return 2
     if isinstance(e, ZeroDivisionError):
         return 3
+    if isinstance(e, TypeError):
+        return 4
     raise e
 
 
@@ -228,14 +239,18 @@ CTOR_KW = {"KUniform": [("energy_density", "Fed"), ("laser_length", "Flen"), ("l
                      ("waist_z", "Fwz"), ("stddev_waist", "Fsw"), ("laser_wavelength", "Fwl")]}      # documented positional order
 
 
+SIGNATURE = {}
+
+
 def make_profile(L, kind, args, pol, form="kw", omit=(), wrap_form=None):
     """Class(...) called with keywords, positionally (documented order) or with some arguments left to their defaults"""
     from raysect.optical import Vector3D
     cls = getattr(L, CLASSNAME[kind])
-    vals = [(kw, A.wrap(args[f], wrap_form)) for kw, f in CTOR_KW[kind]]
+    sig = SIGNATURE.get(kind) or CTOR_KW[kind]          # parameter order read from the current source (c18_translate)
+    vals = [(kw, A.wrap(args[f], wrap_form)) for kw, f in sig]
     if form == "positional":
         return cls(*[v for _, v in vals], Vector3D(*pol))
-    kwargs = {kw: v for (kw, v), (_, f) in zip(vals, CTOR_KW[kind]) if f not in omit}
+    kwargs = {kw: v for (kw, v), (_, f) in zip(vals, sig) if f not in omit}
     if "pol" not in omit:
         kwargs["polarization"] = Vector3D(*pol)
     return cls(**kwargs)
@@ -348,6 +363,14 @@ def run_profile_case(L, case, rng, c, ctx, stats):
             elif op[0] == "attach":
                 rop = ("attach",)
                 laser.laser_profile = obj
+            elif op[0] == "bad":                      # a value of a type the API rejects: the expected outcome is TypeError
+                rop = ("bad", op[1])
+                if op[1] is None:
+                    # never None: set_polarization(None) crashes the interpreter on the unchanged tree (typed argument
+                    # `Vector3D value` admits None, value.normalise() then dereferences it) -- reported, not exercised
+                    obj.set_polarization([(0.0, 1.0, 0.0), "3", [1.0], "abc"][op[2]])
+                else:
+                    setattr(obj, ATTR[op[1]], BAD_VALUES[op[2]])
             else:
                 f = op[1]
                 if op[0] == "same":
@@ -358,7 +381,7 @@ def run_profile_case(L, case, rng, c, ctx, stats):
                 rop = ("set", f, v)
                 setattr(obj, ATTR[f], A.wrap(v, form))
             res.append(0)
-        except (ValueError, AttributeError, ZeroDivisionError) as e:
+        except (ValueError, AttributeError, ZeroDivisionError, TypeError) as e:
             res.append(err_code(e))
         resolved.append(rop)
         # every step: the live object against a freshly built one (cheap, on the implementation only)
@@ -380,6 +403,7 @@ def spectrum_float_edges(lo, hi, bins):
     return delta, e
 
 
+BAD_VALUES = ["3", None, [1.0], "abc"]
 SNAMES = {"min": "min_wavelength", "max": "max_wavelength", "bins": "bins", "mean": "mean", "std": "stddev"}
 
 
@@ -417,6 +441,12 @@ def observe_spectrum(obj, kind, rng):
             arg, ev = 0.0, 0.0
         evals.append((x, arg, ev, float(obj(x))))
     obs["evals"] = evals
+    obs["calls"] = []
+    if kind == "SConst":       # the cpdef method called directly: a bin, intervals that overlap the range partly, cover it, miss it
+        w = hi - lo
+        for a_, b_ in [(edges[0], edges[1]), (lo - 0.5 * w, lo + 0.25 * w), (hi - 0.125 * w, hi + w), (lo - w, hi + w), (hi + 0.5 * w, hi + w)]:
+            if b_ - a_ > 1e-280 and w > 1e-280:
+                obs["calls"].append((a_, b_, float(obj._get_bin_power_spectral_density(a_, b_))))
     return obs
 
 
@@ -440,8 +470,12 @@ def run_spectrum_case(L, case, rng, ctx, stats):
             obs["res"] = list(res)
             records.append((dict(case, ops=list(resolved), observed_mid_history=i), obs))
             stats["mid_history_observations"] += 1
-        name = op[1] if op[0] == "same" else op[0]
+        name = op[1] if op[0] in ("same", "bad") else op[0]
         try:
+            if op[0] == "bad":
+                rop = ("bad", name)
+                setattr(obj, SNAMES[name], BAD_VALUES[op[2]])
+                raise AssertionError("%s.%s accepted %r" % (kind, name, BAD_VALUES[op[2]]))
             if op[0] == "same":
                 v = getattr(obj, SNAMES[name]) if (kind == "SGauss" or name not in ("mean", "std")) else 1.5
                 form = None
@@ -451,7 +485,7 @@ def run_spectrum_case(L, case, rng, ctx, stats):
             rop = (name, v)
             setattr(obj, SNAMES[name], A.wrap(v, form) if form else v)
             res.append(0)
-        except (ValueError, AttributeError) as e:
+        except (ValueError, AttributeError, TypeError) as e:
             res.append(err_code(e))
         resolved.append(rop)
         fl = S.step_check_spectrum(L, kind, obj, dict(case, ops=list(resolved)), stats)
@@ -475,10 +509,14 @@ def pop_lit(op):
         return "PSetPol %s" % vec_lit(op[1])
     if op[0] == "attach":
         return "PAttach"
+    if op[0] == "bad":
+        return "PBad None" if op[1] is None else "PBad (Some %s)" % op[1]
     return "PSet %s %s" % (op[1], qlit(op[2]))
 
 
 def sop_lit(op):
+    if op[0] == "bad":
+        return "SBad %s" % ("true" if op[1] in ("mean", "std") else "false")
     if op[0] == "bins":
         return "SSetBins %s" % zlit(op[1])
     return "%s %s" % ({"min": "SSetMin", "max": "SSetMax", "mean": "SSetMean", "std": "SSetStd"}[op[0]], qlit(op[1]))
@@ -497,17 +535,19 @@ def profile_term(case, obs):
     args = "(mkA (mkV %s) %s)" % (" ".join(qlit(a[f]) for f in FIELDS), vec_lit(case["pol"]))
     ops = blist(pop_lit(o) for o in case["ops"])
     if not obs["ctor_ok"]:
-        return "check_profile cC cPi cS2pi3 %s %s %s false [] [] [] (0,0,0) 0 [] 0 []" % (case["kind"], args, ops)
+        return "check_profile cC cPi cS2pi3 %s %s %s false [] [] [] (0,0,0) 0 [] 0 [] false" % (case["kind"], args, ops)
     probes = blist("(%s, %s, %s, %s)" % (vec_lit(p[0]), qlit(p[1]), qlit(p[2]), qlit(p[3])) for p in obs["probes"])
     pol_cur = case["pol"]
     for o, r in zip(case["ops"], obs["res"]):
         if o[0] == "pol" and r == 0:
             pol_cur = o[1]
     plen = math.sqrt(pol_cur[0] ** 2 + pol_cur[1] ** 2 + pol_cur[2] ** 2)
-    return "check_profile cC cPi cS2pi3 %s %s %s true %s %s %s %s %s %s %s %s" % (
+    L_ = obs["rep"]["Flen"]
+    exactfl = "true" if 1e-280 < L_ < 1e280 else "false"
+    return "check_profile cC cPi cS2pi3 %s %s %s true %s %s %s %s %s %s %s %s " % (
         case["kind"], args, ops, zl(obs["res"]), qlist([obs["rep"][f] for f in KIND_FIELDS[case["kind"]]]), probes,
         vec_lit(obs["polv"]), qlit(plen), qlist(sorted(set(obs["radii"]))), "%s%%Z" % zlit(len(obs["segs"])),
-        blist("(%s%%Z, (%s, %s))" % (zlit(i), qlit(obs["segs"][i][0]), qlit(obs["segs"][i][1])) for i in obs["seg_sample"]))
+        blist("(%s%%Z, (%s, %s))" % (zlit(i), qlit(obs["segs"][i][0]), qlit(obs["segs"][i][1])) for i in obs["seg_sample"])) + exactfl
 
 
 def spectrum_term(case, obs):
@@ -515,17 +555,21 @@ def spectrum_term(case, obs):
     args = "(mkSA %s %s %s %s %s)" % (qlit(a["min"]), qlit(a["max"]), zlit(a["bins"]), qlit(a["mean"]), qlit(a["std"]))
     ops = blist(sop_lit(o) for o in case["ops"])
     if not obs["ctor_ok"]:
-        return "check_spectrum cPi cSqrt2 cSqrt2pi %s %s %s false [] [] [] [] 0 [] [] [] []" % (case["kind"], args, ops)
+        return "check_spectrum cPi cSqrt2 cSqrt2pi %s %s %s false [] [] [] [] 0 [] [] [] [] false []" % (case["kind"], args, ops)
+    lo_, hi_ = obs["rep"][0], obs["rep"][1]
+    exactfl = "true" if (lo_ > 1e-280 and hi_ < 1e280 and (hi_ - lo_) / obs["zrep"][0] > 1e-280) else "false"
+    tail = " %s %s" % (exactfl, blist("(%s, %s, %s)" % (qlit(a), qlit(b), qlit(v)) for a, b, v in obs.get("calls", [])))
     return "check_spectrum cPi cSqrt2 cSqrt2pi %s %s %s true %s %s %s %s %s %s %s %s %s" % (
         case["kind"], args, ops, zl(obs["res"]), qlist(obs["rep"]), zl(obs["zrep"]), qlist(obs["deltas"]), qlit(obs["slack"]),
         blist("(%s, %s)" % (qlit(k), qlit(v)) for k, v in obs["tbl"]), qlist(obs["wl"]), qlist(obs["psd"]),
-        blist("(%s, %s, %s, %s)" % tuple(qlit(v) for v in e) for e in obs["evals"]))
+        blist("(%s, %s, %s, %s)" % tuple(qlit(v) for v in e) for e in obs["evals"])) + tail
 
 
-CODE_TEXT = {"profile": {1: "constructor accepted/rejected differently", 2: "result (ok / ValueError / AttributeError / ZeroDivisionError) of a call",
+CODE_TEXT = {"profile": {9: "segments against the computation in doubles (exact)", 1: "constructor accepted/rejected differently", 2: "result (ok / ValueError / AttributeError / ZeroDivisionError) of a call",
                          3: "reported parameters", 4: "harness constant sqrt((2 pi)^3)", 5: "energy density at a probe point",
                          6: "polarisation", 7: "cylinder radius", 8: "segments held by the Laser node"},
-             "spectrum": {1: "constructor accepted/rejected differently", 2: "result of a setter call", 3: "reported wavelengths / mean / stddev / accessors",
+             "spectrum": {10: "delta / wavelengths / constant-spectrum density against the computation in doubles (exact)",
+                          11: "direct call of _get_bin_power_spectral_density", 1: "constructor accepted/rejected differently", 2: "result of a setter call", 3: "reported wavelengths / mean / stddev / accessors",
                           4: "bins / get_spectral_bins", 5: "harness constants", 6: "delta_wavelength", 7: "wavelengths array",
                           8: "binned power spectral density", 9: "spectrum(x)"}}
 
@@ -580,6 +624,22 @@ def run(ctx):
     rng = ctx.rng
     quick = ctx.quick
     c = speed_of_light()
+    # ---- policy tables regenerated from the current source, tie lemma checked by the kernel ------------------
+    try:
+        policy, scripts, sigs = T.translate(REPO)
+        for kind, sg in sigs.items():
+            SIGNATURE[kind] = [(kw, f) for kw, f, _ in sg if f != "pol"]
+            for kw, f, dv in sg:
+                if f != "pol":
+                    A.DEFAULTS[f] = dv
+        pth = ctx.write_gen("Policy.v", T.coq_text(policy, scripts))
+        ok, out = coqc(pth, timeout=600)
+        ctx.obligation("Gen tie lemma policy_ok (setter / constructor policy of profile.pyx = tables of the model)", "tie", ok, out)
+        if not ok:
+            ctx.log("policy tie FAILED: " + out[-800:])
+    except T.TranslationError as e:
+        ctx.obligation("translator: profile.pyx has the recognised shape", "tie", False, str(e))
+        ctx.log("translator failed: %s" % e)
 
     cases = load_corpus()
     n_corpus = len(cases)
@@ -597,8 +657,8 @@ def run(ctx):
             cs["ops"] = [(op[0], v)]
             cases.append(cs)
     n_forced = len(cases)
-    n_prof = 110 if quick else 2000
-    n_spec = 110 if quick else 2200
+    n_prof = 92 if quick else 2000
+    n_spec = 92 if quick else 2200
     for i in range(n_prof):
         cases.append(gen_profile_case(rng, KINDS[i % 4], exact=(i % 3 == 0)))
     for i in range(n_spec):
@@ -715,7 +775,7 @@ def run(ctx):
     # ---- coverage ------------------------------------------------------------------------------------
     def nontrivial(case, obs):
         return obs["ctor_ok"] and any(r == 0 for r in obs.get("res", []))
-    dist = {"by_class": {}, "ops_per_case": {}, "op_results": {"ok": 0, "ValueError": 0, "AttributeError": 0, "ZeroDivisionError": 0}, "audit_classes": {},
+    dist = {"by_class": {}, "ops_per_case": {}, "op_results": {"ok": 0, "ValueError": 0, "AttributeError": 0, "ZeroDivisionError": 0, "TypeError": 0}, "audit_classes": {},
             "constructor_rejected": 0, "geometry_class": {}, "segments": {"0-1": 0, "2-9": 0, "10+": 0},
             "spectrum_bins": {"1": 0, "2-9": 0, "10+": 0}, "setters_hit": {}}
     keyset = set()
@@ -729,9 +789,9 @@ def run(ctx):
             dist["constructor_rejected"] += 1
             continue
         for o, r in zip(case["ops"], obs["res"]):
-            dist["op_results"][["ok", "ValueError", "AttributeError", "ZeroDivisionError"][r]] += 1
+            dist["op_results"][["ok", "ValueError", "AttributeError", "ZeroDivisionError", "TypeError"][r]] += 1
             if r == 0:
-                k = "%s.%s" % (nm, ATTR.get(o[1], o[1]) if o[0] == "set" else {"pol": "set_polarization", "attach": "laser.laser_profile="}.get(o[0], o[0]))
+                k = "%s.%s" % (nm, ATTR.get(o[1], o[1]) if o[0] == "set" else {"pol": "set_polarization", "attach": "laser.laser_profile=", "bad": "rejected-type"}.get(o[0], o[0]))
                 dist["setters_hit"][k] = dist["setters_hit"].get(k, 0) + 1
         if case["type"] == "profile":
             gc = case.get("geom_class", "free")
@@ -761,10 +821,23 @@ def run(ctx):
                 "radius/length drawn from the classes short (L<2r), one, two, exact multiple, many, free; one third of the cases dyadic. "
                 "non-trivial = constructor accepted and at least one setter call accepted; distinct = distinct (class, arguments, history)",
         "distribution": dist,
-        "tolerance": {"call results, reported parameters, bins, radius": "exact", "energy density": "2^-36 relative (exp oracle argument validated to 2^-40)",
-                      "segment offsets/heights, wavelengths, delta, polarisation": "2^-48", "Gaussian bin power": "2^-34 absolute",
-                      "constant-spectrum bin power": "2^-46 * max/(max-min) absolute (bin edges are accumulated in doubles; a clipped outer "
-                                                     "bin sees ulp(wavelength)/(max-min)); a halved bin is off by 1/(2 bins)"},
+        "tolerance": {"call results (ok / ValueError / AttributeError / ZeroDivisionError / TypeError), reported parameters, bins, radius, "
+                      "number of segments": "exact",
+                      "segment offsets and heights, delta_wavelength, wavelengths, ConstantSpectrum power spectral density":
+                          "EXACT (0 ulp) against the round-to-53-bits evaluator of Model/C18_Float.v, which at rnd = identity is the "
+                          "model (theorem C18_double_evaluator_at_identity_is_the_model); only for values in the normal range "
+                          "(1e-280 .. 1e280), otherwise 2^-48 relative against the exact model",
+                      "energy density": "2^-36 relative + 2^-1000 absolute (exp oracle value at the double argument; the argument validated in Coq to 2^-40 relative)",
+                      "polarisation": "2^-48 absolute (sqrt oracle validated: len^2 = |p|^2 to 2^-48)",
+                      "Gaussian bin power": "2^-34 absolute (erf oracle values looked up by argument, slack 2^-24 + 2^-44 * max * norm_cdf)",
+                      "spectrum(x)": "constant: exact; Gaussian: 2^-36 relative + 2^-1000 absolute",
+                      "direct _get_bin_power_spectral_density(lo, hi) of ConstantSpectrum": "2^-48 relative against the model's bin_psd",
+                      "constant-spectrum bin power (additionally, against the exact model)": "(2^-46 + 2^-52 bins) * max/(max-min) absolute"},
+        "regenerated_from_source": ["SPEED_OF_LIGHT (constants.pyx)",
+                                    "per class and attribute: property exists / guard `if value <= 0: raise` / action after the assignment "
+                                    "(notify | Constant3D | _function_changed | _stddev_z then _function_changed), __init__ statement by statement, "
+                                    "constructor parameter order and defaults (profile.pyx, fail-closed translator harness/c18_translate.py); "
+                                    "kernel-checked against the model's has_field / guarded / action / init_script by coq/Gen/C18/Policy.v: policy_ok"],
         "ambiguous": {"constant_spectrum_objects_with_an_outer_edge_rounded_outside_the_range": stats["const_edge_cases"]},
         "partial": ["Gaussian integral / Fubini / erf as normal CDF are classical analysis, not proved (theorems *_partial state what is assumed)",
                     "rejected values of the two unguarded GaussianBeamAxisymmetric setters are outside the history theorem"],
